@@ -806,7 +806,41 @@ func runContractV2(s *Session, ops []cop) {
 					continue
 				}
 				e.inc("c17.hostile-host-prices")
+				ins := chain.ownedBy(renter.addr)
+				rnw := rhp4.RPCRenewContractParams{ContractID: fcid, Allowance: types.Siacoins(10), Collateral: types.Siacoins(1), ProofHeight: max(cur.ProofHeight+1, tip.Height+rhp4.MinContractDuration) + 10}
+				rfr := rhp4.RPCRefreshContractParams{ContractID: fcid, Allowance: types.Siacoins(10), Collateral: types.Siacoins(1)}
 				for name, fn := range map[string]func() error{
+					"RPCRenewContractRequest.Validate (then RenewContract / RenewalCost)": func() error {
+						if len(ins) == 0 {
+							return nil
+						}
+						r := &rhp4.RPCRenewContractRequest{Prices: hp, Renewal: rnw, MinerFee: minerFee, Basis: tip, RenterInputs: ins[:1]}
+						if err := r.Validate(host.pk, tip, cur, types.MaxCurrency, ^uint64(0)>>1); err != nil {
+							return err
+						}
+						renewal, _ := rhp4.RenewContract(cur, hp, host.addr, rnw)
+						rhp4.RenewalCost(chain.s, renewal, minerFee)
+						return nil
+					},
+					"RPCRefreshContractRequest.Validate (then RefreshContract* / RefreshCost)": func() error {
+						if len(ins) == 0 {
+							return nil
+						}
+						for _, partial := range []bool{false, true} {
+							r := &rhp4.RPCRefreshContractRequest{Prices: hp, Refresh: rfr, MinerFee: minerFee, Basis: tip, RenterInputs: ins[:1]}
+							if err := r.Validate(host.pk, tip, cur, types.MaxCurrency, partial); err != nil {
+								continue
+							}
+							var renewal types.V2FileContractRenewal
+							if partial {
+								renewal, _ = rhp4.RefreshContractPartialRollover(cur, hp, host.addr, rfr)
+							} else {
+								renewal, _ = rhp4.RefreshContractFullRollover(cur, hp, host.addr, rfr)
+							}
+							rhp4.RefreshCost(chain.s, hp, renewal, minerFee)
+						}
+						return nil
+					},
 					"ReviseForAppendSectors": func() error { _, _, err := rhp4.ReviseForAppendSectors(cur, hp, types.Hash256{1}, uint64(1+op.r[0]%3)); return err },
 					"ReviseForFreeSectors":   func() error { _, _, err := rhp4.ReviseForFreeSectors(cur, hp, types.Hash256{1}, 1+op.r[1]%3); return err },
 					"ReviseForSectorRoots":   func() error { _, _, err := rhp4.ReviseForSectorRoots(cur, hp, uint64(1+op.r[2]%1000)); return err },
